@@ -7,7 +7,7 @@ from abc import ABC, abstractmethod
 from typing import TYPE_CHECKING
 
 # Third Party Imports
-from numpy import array, cos, sin, zeros_like
+from numpy import array, concatenate, cos, sin, zeros, zeros_like
 from scipy.linalg import norm
 
 # Local Imports
@@ -184,6 +184,9 @@ class Sensor(ABC):
                     reason=Explanation.SLEW_DISTANCE.value,
                 ),
             )
+            # [NOTE]: The sensor did not move, so serendipitous observations (below) are of targets in the field
+            #   of view about its *current* boresight, not about the pointing direction it could not reach.
+            pointing_sez = concatenate((self.boresight, zeros(3)))
 
         # If doing Serendipitous Observations
         if self.calculate_background:
